@@ -415,8 +415,12 @@ func (c *pgCtx) guardFuel(x *ast.ForStmt) []string {
 			}
 		}
 	}
-	for _, v := range pgUsed(c.info, x.Body) {
-		if x.Body.Pos() <= v.Pos() && v.Pos() < x.Body.End() {
+	var cond ast.Node
+	if x.Cond != nil {
+		cond = x.Cond
+	}
+	for _, v := range pgUsed(c.info, cond, x.Body) {
+		if (x.Body.Pos() <= v.Pos() && v.Pos() < x.Body.End()) || c.loopLocal[v] {
 			continue
 		}
 		if lt, ok := c.g.leanType(v.Type()); ok {
@@ -496,7 +500,7 @@ func (c *pgCtx) inoutCall(x *ast.CallExpr) (pre []string, vals []string) {
 func (g *pgGen) markExt() {
 	uses := func(fn *pgFn) bool {
 		found := false
-		ast.Inspect(fn.decl.Body, func(m ast.Node) bool {
+		walkWithHelpers(fn.decl.Body, fn.pkg, func(tf *types.Func) bool { return g.byObj[tf] != nil }, func(m ast.Node) bool {
 			call, ok := m.(*ast.CallExpr)
 			if !ok {
 				return true
